@@ -300,18 +300,32 @@ Theorem C53_graph_total :
 Proof. exact C53Graph.c53_graph_total. Qed.
 Print Assumptions C53_graph_total.
 
-(* an index equal to the table length is rejected and not read: commit index, parent index, EDGE position;
-   a successful lookup used only indices below the count and returned 20-byte ids *)
+(* an index equal to the table length is rejected and not read: commit index, parent index (in a split graph:
+   a parent index below [min] is delegated to the parent layers [below], one >= min + ncommits is rejected),
+   EDGE position; a successful lookup used only indices below the count and returned 20-byte ids *)
 Theorem C53_graph_no_oob :
-  (forall file fi idx, (CommitGraph.ncommits fi <= idx)%N -> CommitGraph.get_commit_data file fi idx = CommitGraph.Er CommitGraph.ENotFound) /\
-  (forall file fi idxs i, In i idxs -> (CommitGraph.ncommits fi <= i)%N -> exists e, CommitGraph.hashes_of file fi idxs = CommitGraph.Er e) /\
+  (forall below min file fi idx, (CommitGraph.ncommits fi <= idx)%N ->
+     CommitGraph.get_commit_data_in below min file fi idx = CommitGraph.Er CommitGraph.ENotFound) /\
+  (forall below min file fi idxs i, In i idxs -> (min + CommitGraph.ncommits fi <= i)%N ->
+     exists e, CommitGraph.hashes_of below min file fi idxs = CommitGraph.Er e) /\
+  (forall below min file fi i r, (i < min)%N ->
+     CommitGraph.hashes_of below min file fi (i :: r) =
+     match below i with
+     | CommitGraph.Er e => CommitGraph.Er e
+     | CommitGraph.Ok h => match CommitGraph.hashes_of below min file fi r with
+                           | CommitGraph.Ok l => CommitGraph.Ok (h :: l) | CommitGraph.Er e => CommitGraph.Er e end
+     end) /\
   (forall file f off pos cnt, (cnt <= pos)%Z -> CommitGraph.read_edges file (S f) off pos cnt = CommitGraph.Er CommitGraph.EMalformed) /\
-  (forall file fi idx d, CommitGraph.get_commit_data file fi idx = CommitGraph.Ok d ->
+  (forall below min file fi idx d, CommitGraph.get_commit_data_in below min file fi idx = CommitGraph.Ok d ->
      (idx < CommitGraph.ncommits fi)%N /\ List.length (CommitGraph.d_tree d) = 20%nat /\
-     Forall (fun i => (i < CommitGraph.ncommits fi)%N) (CommitGraph.d_pidx d) /\
+     Forall (fun i => (i < min + CommitGraph.ncommits fi)%N) (CommitGraph.d_pidx d) /\
      List.length (CommitGraph.d_phash d) = List.length (CommitGraph.d_pidx d) /\
-     Forall (fun h => List.length h = 20%nat) (CommitGraph.d_phash d) /\
-     (4 * Z.of_nat (List.length (CommitGraph.d_pidx d)) <= Z.of_nat (List.length file) + 4)%Z).
+     ((forall i h, below i = CommitGraph.Ok h -> List.length h = 20%nat) ->
+      Forall (fun h => List.length h = 20%nat) (CommitGraph.d_phash d)) /\
+     (4 * Z.of_nat (List.length (CommitGraph.d_pidx d)) <= Z.of_nat (List.length file) + 4)%Z) /\
+  (forall file fi idx d, CommitGraph.get_commit_data file fi idx = CommitGraph.Ok d ->
+     (idx < CommitGraph.ncommits fi)%N /\ Forall (fun i => (i < CommitGraph.ncommits fi)%N) (CommitGraph.d_pidx d) /\
+     Forall (fun h => List.length h = 20%nat) (CommitGraph.d_phash d)).
 Proof. exact C53Graph.c53_graph_no_oob. Qed.
 Print Assumptions C53_graph_no_oob.
 
